@@ -12,6 +12,7 @@ their truth semantics are the subject of C09, C08 and C10.
 -/
 import Rip.Lemmas.Cache
 import Rip.Lemmas.SeekIndex
+import Rip.Lemmas.SeekIndexGood
 import Rip.Gen.SeekUse
 import Rip.Cex.C04
 import Rip.Gen.TailLoops
@@ -151,6 +152,24 @@ theorem seek_window_is_spec (budget : Nat) (ls : List Line) (fromSeq limit : Nat
     windowLinear budget ls fromSeq limit =
       windowSpec (startSeq ls (boundaryGo fromSeq (fileLen ls) 0 ls) fromSeq limit budget) fromSeq ls :=
   windowLinear_spec budget ls fromSeq limit hs
+
+
+/-- the other half — the index is not merely harmless, it is USED: an index whose entries all point
+at the frames they name always answers, and answers the index-free read (every sorted sidecar, every
+such index, cut, limit, budget) -/
+theorem seek_right_index_is_used (budget : Nat) (ls : List Line) (es : List Entry) (fromSeq limit : Nat)
+    (hs : Sorted ls) (hv : AllValid ls es) :
+    windowWith true budget ls es fromSeq limit = some (windowLinear budget ls fromSeq limit) :=
+  windowWith_valid_exact budget ls es fromSeq limit hs hv
+
+/-- … and a MISSING index file, or one the loader rejects, costs a rebuild and nothing else: on every
+non-empty sidecar that holds the thread's frames 0,1,2,… the window read answers the index-free read -/
+theorem seek_missing_index_costs_nothing (stride budget : Nat) (l : Line) (ls : List Line)
+    (hc : ContigFrom 0 (l :: ls)) (file : Option (List Entry))
+    (hrej : match file with | some es => loadOk es = false | none => True) (fromSeq limit : Nat) :
+    window true stride budget (l :: ls) file fromSeq limit =
+      some (windowLinear budget (l :: ls) fromSeq limit) :=
+  window_rebuilt_exact stride budget l ls hc file hrej fromSeq limit
 
 /-- before the repair (only the LAST entry of an index was ever checked) an index with a wrong middle
 entry was accepted and the window silently lost frames; now the same read is refused -/
